@@ -300,7 +300,16 @@ class TokenParser(Parser):
                 else:
                     count = Expression(self.cstruct, count.strip())
                     # A name of a preceding field refers to that field, also if a constant of that name exists
-                    if not (field_names and field_names.intersection(count.tokens)):
+                    # (the operand of sizeof() is the name of a type, not of a field)
+                    names, skip = set(), False
+                    for token in count.tokens:
+                        if token == "sizeof":
+                            skip = True
+                        elif skip and token == ")":
+                            skip = False
+                        elif not skip:
+                            names.add(token)
+                    if not (field_names and field_names.intersection(names)):
                         try:
                             count = count.evaluate()
                         except Exception:
